@@ -7,6 +7,7 @@ import (
 	"fmt"
 	"go/ast"
 	"go/parser"
+	"go/token"
 	"go/types"
 	"os"
 	"strconv"
@@ -42,6 +43,7 @@ type FuncContract struct {
 	Decreases  []Clause
 	Loops      map[int]*LoopSpec
 	CallAssert []CallAssert
+	CallAssume []CallAssert // assume@after callee#k expr
 	Inline     bool
 	Trusted    string
 	Pure       bool
@@ -69,6 +71,7 @@ type SpecFunc struct {
 	Body    ast.Expr // nil for ghost (uninterpreted)
 	Line    int
 	Rec     bool
+	Opaque  bool // ospec: axiomatised as an uninterpreted function with a triggered definition
 	Heap    bool // ghostfield: heap-resident ghost field indexed by a pointer
 	BodySrc string
 }
@@ -181,7 +184,7 @@ func ParseContractFile(path string) (*ContractFile, error) {
 			if k2 == "mode" {
 				cf.Default.Mode = strings.TrimSpace(v)
 			}
-		case "spec", "ghost", "ghostfield":
+		case "spec", "ospec", "ghost", "ghostfield":
 			// spec name(params) T = expr   |  ghost name(params) T
 			open := strings.Index(rest, "(")
 			if open < 0 {
@@ -225,10 +228,11 @@ func ParseContractFile(path string) (*ContractFile, error) {
 				}
 				sf.Body = be
 				sf.BodySrc = bsrc
-			} else if kw == "spec" {
+			} else if kw == "spec" || kw == "ospec" {
 				return nil, fmt.Errorf("%s:%d: spec without body", path, d.line)
 			}
 			sf.Heap = kw == "ghostfield"
+			sf.Opaque = kw == "ospec"
 			if kw == "ghost" || kw == "ghostfield" {
 				cf.Scan = append(cf.Scan, fmt.Sprintf("ghost (uninterpreted) %s", name))
 			}
@@ -295,13 +299,13 @@ func ParseContractFile(path string) (*ContractFile, error) {
 				if err != nil {
 					return nil, err
 				}
-				cur.Requires = append(cur.Requires, c)
+				cur.Requires = append(cur.Requires, splitClause(c)...)
 			case "ensures":
 				c, err := mk(rest, d.line)
 				if err != nil {
 					return nil, err
 				}
-				cur.Ensures = append(cur.Ensures, c)
+				cur.Ensures = append(cur.Ensures, splitClause(c)...)
 			case "assume":
 				c, err := mk(rest, d.line)
 				if err != nil {
@@ -350,7 +354,7 @@ func ParseContractFile(path string) (*ContractFile, error) {
 					if err != nil {
 						return nil, err
 					}
-					ls.Invariants = append(ls.Invariants, c)
+					ls.Invariants = append(ls.Invariants, splitClause(c)...)
 				case "decreases":
 					for _, part := range splitTop(body) {
 						c, err := mk(part, d.line)
@@ -378,6 +382,17 @@ func ParseContractFile(path string) (*ContractFile, error) {
 					return nil, err
 				}
 				cur.CallAssert = append(cur.CallAssert, CallAssert{Callee: callee, K: k, C: c})
+			case "assume@after":
+				f := strings.Fields(rest)
+				callee, ks, _ := strings.Cut(f[0], "#")
+				k, _ := strconv.Atoi(ks)
+				body := strings.TrimSpace(strings.TrimPrefix(rest, f[0]))
+				c, err := mk(body, d.line)
+				if err != nil {
+					return nil, err
+				}
+				cur.CallAssume = append(cur.CallAssume, CallAssert{Callee: callee, K: k, C: c})
+				cf.Scan = append(cf.Scan, fmt.Sprintf("assumed in %s after %s: %s", cur.Key, f[0], body))
 			case "inline":
 				cur.Inline = true
 			case "pure":
@@ -386,6 +401,8 @@ func ParseContractFile(path string) (*ContractFile, error) {
 				cur.NilableRcv = true
 			case "no_overflow":
 				cur.NoOverflow = true
+			case "trusted_contract":
+				cf.Scan = append(cf.Scan, fmt.Sprintf("assumed contract of %s: %s", cur.Key, rest))
 			case "trusted":
 				cur.Trusted = rest
 				cf.Scan = append(cf.Scan, fmt.Sprintf("trusted %s: %s", cur.Key, rest))
@@ -401,6 +418,49 @@ func ParseContractFile(path string) (*ContractFile, error) {
 		}
 	}
 	return cf, nil
+}
+
+// flattenConj splits a clause into its top-level conjuncts, looking through
+// parentheses and through the consequent of implies(c, ...). Each conjunct
+// becomes its own obligation (conjunctions are markedly harder for the solvers
+// than their parts).
+func flattenConj(e ast.Expr) []ast.Expr {
+	switch x := e.(type) {
+	case *ast.ParenExpr:
+		return flattenConj(x.X)
+	case *ast.BinaryExpr:
+		if x.Op == token.LAND {
+			return append(flattenConj(x.X), flattenConj(x.Y)...)
+		}
+	case *ast.CallExpr:
+		if id, ok := x.Fun.(*ast.Ident); ok && id.Name == "implies" && len(x.Args) == 2 {
+			parts := flattenConj(x.Args[1])
+			if len(parts) > 1 {
+				var out []ast.Expr
+				for _, p := range parts {
+					out = append(out, &ast.CallExpr{Fun: x.Fun, Args: []ast.Expr{x.Args[0], p}})
+				}
+				return out
+			}
+		}
+	}
+	return []ast.Expr{e}
+}
+
+func splitClause(c Clause) []Clause {
+	parts := flattenConj(c.Expr)
+	if len(parts) <= 1 {
+		return []Clause{c}
+	}
+	var out []Clause
+	for i, p := range parts {
+		n := c.Name
+		if n != "" {
+			n = fmt.Sprintf("%s.%d", n, i+1)
+		}
+		out = append(out, Clause{Src: types.ExprString(p), Expr: p, Line: c.Line, Name: n})
+	}
+	return out
 }
 
 // splitTop splits on commas that are not nested in parentheses/brackets.
